@@ -171,6 +171,9 @@ def _ramp(enc, L, A, B, cplx):
 
 def write_all(d):
     """Write the harness' file sets into directory d; -> dict key -> FileSet."""
+    # Readers are given the format explicitly, except vdifc_mask, s_vdif_lsb and s_dada_lsb, which use
+    # baseband's format detection like the repository's tests.  (The detection switches the process-wide
+    # warnings filter to 'error' for a moment - not thread-safe - so the thread pool uses the former only.)
     fs = {}
 
     # VDIF, one thread, two channels, 8 frames of 16 samples, complex and real
@@ -186,7 +189,8 @@ def write_all(d):
                 continue
             fs[key + lsbname] = FileSet(
                 key + lsbname, "plain", not cplx, lsb is True, 16, 8, 1, 1, 2, "vdif8", "ramp", fn, {"squeeze": False},
-                (lambda fn=fn, lsb=lsb: pbr.BasebandReader(fn, squeeze=False, lower_sideband=lsb)),
+                (lambda fn=fn, lsb=lsb, kw=({} if lsbname == "_mask" else {"format": "vdif"}):
+                 pbr.BasebandReader(fn, squeeze=False, lower_sideband=lsb, **kw)),
                 mask=mask, raw=data, md=32768 if cplx else 256, cplx=cplx)
     # VDIF, two threads of one channel (sample shape (2, 1))
     fn = os.path.join(d, "vdift.vdif")
@@ -196,7 +200,7 @@ def write_all(d):
     with vdif.open(fn, "ws", header0=hdr, nthread=2, squeeze=False) as fw:
         fw.write(data)
     fs["vdift"] = FileSet("vdift", "plain", False, False, 8, 8, 1, 2, 1, "vdif8", "ramp", fn, {"squeeze": False},
-                          lambda fn=fn: pbr.BasebandReader(fn, squeeze=False), raw=data)
+                          lambda fn=fn: pbr.BasebandReader(fn, squeeze=False, format="vdif"), raw=data)
     # DADA, two polarisations, four files of one frame
     data = _ramp("int8", 64, 2, 1, True)
     hdr = dada.DADAHeader.fromvalues(time=T0, offset=0 * u.s, npol=2, nchan=1, bps=8, complex_data=True,
@@ -244,11 +248,13 @@ def sample_files():
     v = os.path.join(DATA, "sample.vdif")
     for key, lsb in (("s_vdif", False), ("s_vdif_lsb", True)):
         fs[key] = FileSet(key, "plain", True, lsb, 20000, 2, 1, 8, 1, "vdif2", "direct", v, {"squeeze": False},
-                          lambda lsb=lsb: pbr.BasebandReader(v, squeeze=False, lower_sideband=lsb), cplx=False)
+                          lambda lsb=lsb, kw=({} if lsb else {"format": "vdif"}):
+                          pbr.BasebandReader(v, squeeze=False, lower_sideband=lsb, **kw), cplx=False)
     dd = os.path.join(DATA, "sample.dada")
     for key, lsb in (("s_dada", False), ("s_dada_lsb", True)):
         fs[key] = FileSet(key, "plain", False, lsb, 16000, 1, 1, 2, 1, "int8", "direct", dd, {"squeeze": False},
-                          lambda lsb=lsb: pbr.BasebandReader(dd, squeeze=False, lower_sideband=lsb))
+                          lambda lsb=lsb, kw=({} if lsb else {"format": "dada"}):
+                          pbr.BasebandReader(dd, squeeze=False, lower_sideband=lsb, **kw))
     g = sorted(glob.glob(os.path.join(DATA, "fake.*.raw")))
     fs["s_guppi"] = FileSet("s_guppi", "guppi", False, False, 1024, 8, 4, 2, 4, "int8", "direct", g,
                             {"format": "guppi", "squeeze": False}, lambda: pbr.GUPPIRawReader(g))
@@ -500,7 +506,7 @@ def validate(module, events, chk, batch=400, jobs=6, timeout=600, name=None, env
             json.dump(part, f)
         if os.path.exists(vf):
             os.remove(vf)
-        e = {"TRACE_FILE": tf, "VERDICT_FILE": vf}
+        e = {"TRACE_FILE": tf, "VERDICT_FILE": vf, "_JAVA_OPTIONS": "-XX:ParallelGCThreads=2"}
         e.update(env or {})
         r = tlc.run(module, cfg or module + ".cfg", workers=1, env=e, timeout=timeout, heap="3g")
         rej, summary = [], None
